@@ -37,5 +37,8 @@ pub fn run(toks: &[&str]) -> String {
         }
         return s;
     }
+    if toks[0] == "f32" {
+        return f32_probe(toks, mila::ctpk::read, ctpk_tail);
+    }
     run_kind(toks, mila::ctpk::read, enc_sjis)
 }
